@@ -1,6 +1,6 @@
 //! C07 — BOUNDED STAND-IN (not a proof) for histories of `ElitistArchive::update` (the unbounded per-update contract is the
-//! Verus unit `archive_update`; its composition over several updates is argued on paper, and the Kani kernels cover two
-//! updates): "an elitist archive of capacity k holds, after each update, the k best individuals it has been shown so far".
+//! Verus unit `archive_update`, which also proves the history invariant; this run decides changed code that unit cannot
+//! parse and on which the Kani kernels time out): "an elitist archive of capacity k holds, after each update, the k best individuals it has been shown so far".
 //! Native exhaustive enumeration on the real code: all sequences of 3 updates with populations of 0..2 individuals whose
 //! objective values range over {1, 2, 3}, capacities 0..4.  Injected as a child module of components::archive (private fn).
 use super::*;
